@@ -147,6 +147,19 @@ def hashC (r : Except ErrKind HKey) : Char :=
   | .ok _ => 'h'
   | .error e => errC e
 
+/-- run-length form of a sequence of answers: `TFhh1*3,FThh0,…` -/
+structure Rle where
+  out : String
+  last : String
+  n : Nat
+
+def Rle.flush (r : Rle) : String :=
+  if r.n == 0 then r.out
+  else r.out ++ (if r.out.isEmpty then "" else ",") ++ r.last ++ (if r.n == 1 then "" else s!"*{r.n}")
+
+def Rle.push (r : Rle) (g : String) : Rle :=
+  if r.n > 0 && r.last == g then { r with n := r.n + 1 } else ⟨r.flush, g, 1⟩
+
 def hashJ (r : Except ErrKind HKey) : Json :=
   match r with
   | .ok _ => .str "ok"
@@ -262,17 +275,17 @@ def handle (j : Json) : Except String Json := do
     let ops ← (← getArr j "script").toList.mapM decStirOp
     let queries ← (← getArr j "queries").toList.mapM decQuery
     let s := (Session.fresh pool).run ops
-    let (_, codes) := queries.foldl (fun (acc : Session × String) q =>
+    let (_, rle) := queries.foldl (fun (acc : Session × Rle) q =>
       let (s, out) := acc
       let (ha, s1) := s.hash q.1
       let (hb, s2) := s1.hash q.2
       let hkeq := match ha, hb with
         | .ok x, .ok y => if x == y then '1' else '0'
         | _, _ => '-'
-      (s2, ((((out.push (resC (s2.eq small q.1 q.2))).push (resC (s2.ne small q.1 q.2))).push (hashC ha)).push
-        (hashC hb)).push hkeq)) (s, "")
+      (s2, out.push (String.ofList [resC (s2.eq small q.1 q.2), resC (s2.ne small q.1 q.2), hashC ha, hashC hb, hkeq])))
+      (s, ⟨"", "", 0⟩)
     pure (Json.mkObj [("ok", Json.mkObj [("wf", .bool (poolWF pool)), ("memo", .num s.memo.length),
-      ("pool_kept", .bool (s.pool == pool)), ("codes", .str codes)])])
+      ("pool_kept", .bool (s.pool == pool)), ("codes", .str rle.flush)])])
   | "basehash" =>
     -- `AbstractValueWithQuantityObject.__hash__(o)` called explicitly
     let o ← decObj (← getObj j "a")
